@@ -143,6 +143,22 @@ where
         // for the invalidated value.
         let mut cache_opt = self.cache.write().await;
 
+        // Another reader may have fetched a valid value while we were waiting for the write lock.
+        if let Some(cache) = &*cache_opt
+            && cache.is_valid()
+        {
+            return Ok(tokio::sync::RwLockReadGuard::map(
+                tokio::sync::RwLockWriteGuard::downgrade(cache_opt),
+                |co| co.as_ref().unwrap(),
+            ));
+        }
+
+        // Release the invalidated value before requesting the current one.
+        // The owner waits for all copies of the invalidated value to be dropped before
+        // it serves further requests, and the task monitoring the cache cannot
+        // release it while we hold the write lock.
+        *cache_opt = None;
+
         // Request and receive current value.
         let (value_tx, value_rx) = oneshot::channel();
         let _ = self.req_tx.send(ReadRequest { value_tx }).await;
